@@ -13,9 +13,11 @@ import (
 	"fmt"
 	"math/rand/v2"
 	"os"
+	"os/exec"
 	"path/filepath"
 	"sort"
 	"strings"
+	"sync"
 
 	"verif/sim/internal/common"
 	"verif/sim/internal/progen"
@@ -40,13 +42,13 @@ type Config struct {
 
 // Case is one program and its configurations. Configs[0] is the baseline.
 type Case struct {
-	Kind    string         `json:"kind"` // gen | corpus
-	Module  *progen.Module `json:"module,omitempty"`
-	Corpus  string         `json:"corpus,omitempty"`
-	Configs []Config       `json:"configs"`
-	Header  string         `json:"header,omitempty"` // -header_file content for generated programs
-	Tags    string         `json:"tags,omitempty"`   // -tags value, the same in every configuration of the case (a fixed option)
-	AutoSites bool         `json:"autosites,omitempty"` // add one single-site flip per site reached with >= 2 keys in the baseline
+	Kind      string         `json:"kind"` // gen | corpus
+	Module    *progen.Module `json:"module,omitempty"`
+	Corpus    string         `json:"corpus,omitempty"`
+	Configs   []Config       `json:"configs"`
+	Header    string         `json:"header,omitempty"`    // -header_file content for generated programs
+	Tags      string         `json:"tags,omitempty"`      // -tags value, the same in every configuration of the case (a fixed option)
+	AutoSites bool           `json:"autosites,omitempty"` // add one single-site flip per site reached with >= 2 keys in the baseline
 }
 
 // Stats of a batch.
@@ -547,6 +549,15 @@ func GenCase(r *rand.Rand, thorough bool) *Case {
 	if r.IntN(6) == 0 {
 		c.Tags = []string{"foo", "foo bar"}[r.IntN(2)]
 	}
+	if r.IntN(8) == 0 {
+		// an injector file that imports "C" (needs a C compiler: checked once per batch, see CgoUsable)
+		for _, pk := range m.Pkgs {
+			if pk.Idx >= m.Ext && !pk.Facade && !pk.NoInj {
+				pk.Cgo = CgoUsable()
+				break
+			}
+		}
+	}
 	var pkgs []string
 	for _, pk := range m.Pkgs {
 		if pk.Idx >= m.Ext {
@@ -615,3 +626,27 @@ func CorpusCase(r *rand.Rand, name string, thorough bool) *Case {
 func sortStrings(s []string) { sort.Strings(s) }
 
 func sortedStrings(s []string) bool { return sort.StringsAreSorted(s) }
+
+var (
+	cgoOnce sync.Once
+	cgoOK   bool
+)
+
+// CgoUsable reports whether cgo programs can be built here (a C compiler on PATH and CGO_ENABLED != 0).
+func CgoUsable() bool {
+	cgoOnce.Do(func() {
+		if os.Getenv("CGO_ENABLED") == "0" {
+			return
+		}
+		for _, cc := range []string{os.Getenv("CC"), "gcc", "cc", "clang"} {
+			if cc == "" {
+				continue
+			}
+			if _, err := exec.LookPath(cc); err == nil {
+				cgoOK = true
+				return
+			}
+		}
+	})
+	return cgoOK
+}
